@@ -548,7 +548,7 @@ class Ctx:
                     chk_ax.append(line.strip())
             bad = [a for a in chk_ax if not axiom_allowed(a)]
             self.cov["coqchk"] = {"exit": rc, "axioms_of_all_loaded_libraries": len(chk_ax), "not_on_allow_list": bad,
-                                  "type_in_type": "type-in-type: <none>" in cout, "cmd": "coqchk -silent -o -Q coq V V.props.%s" % self.prop}
+                                  "type_in_type_is_none": "type-in-type: <none>" in cout, "cmd": "coqchk -silent -o -Q coq V V.props.%s" % self.prop}
             if rc != 0:
                 self.broken.append(("coqchk", "V.props.%s" % self.prop, cout[-1200:]))
             for a in bad:
